@@ -10,7 +10,8 @@ PLAN = dict(
          "parallel_for(first,last,step) over 4 index types, parallel_for_each over input/forward/random-access iterators with a generated feeder tree, "
          "parallel_invoke with 2-10 functors; each x generated schedule (which decides what gets stolen and therefore the adaptive depth logic); "
          "non-trivial = a loop with >= 2 chunks/items of which >= 1 was executed by a thread other than the caller; distinct = hash of program text + schedule descriptor. "
-         "The seq leg (rapidcheck) checks the split / proportional-split arithmetic of the range classes alone, sizes up to 2^64-1.",
+         "The seq leg (rapidcheck) checks the split / proportional-split arithmetic of the range classes alone (1d: sizes up to 2^64-1; 2d/3d/nd over int and size_t: chains of up to 64 splits, "
+         "sizes up to the type's maximum and grain sizes up to 2^63) and range_vector<Range,8> (the partitioners' ring buffer) against a deque model under generated split_to_fill/pop_front/pop_back sequences.",
     assumptions=SC_TSO + ["end-begin of every generated range is representable (documented precondition); grainsize > 0; step > 0",
                           "proportional splits only with the proportions proportional_mode::get_split can produce (left = n - n/2, right = n/2)",
                           "beyond 2^16 cells only chunk algebra (non-empty, inside, pairwise disjoint, volumes add up), no per-element counters",
@@ -19,11 +20,11 @@ PLAN = dict(
     tiers=dict(
         quick=[det("rel", H, "cs-rel", 16, 320, 4, tso=True, time_cap=22),
                det("dbg", H, "cs-dbg", 16, 200, 4, tso=True, time_cap=16),
-               cmd("seq", RC, "plain", 1, ["1000"], link_tbb=False, ldflags=["-lrapidcheck"]),
+               cmd("seq", RC, "plain", 2, ["15000"], link_tbb=False, ldflags=["-lrapidcheck"]),
                tsan("C05", 4, 80)],
         thorough=[det("rel", H, "cs-rel", 16, 6000, 5, tso=True, time_cap=330),
                   det("dbg", H, "cs-dbg", 16, 3000, 5, tso=True, time_cap=200),
-                  cmd("seq", RC, "plain", 2, ["20000"], link_tbb=False, ldflags=["-lrapidcheck"]),
+                  cmd("seq", RC, "plain", 8, ["200000"], link_tbb=False, ldflags=["-lrapidcheck"]),
                tsan("C05", 16, 600)],
     ),
 )
